@@ -1,10 +1,39 @@
 #!/bin/sh
 # usage: check.sh <property-id> [quick|thorough]
 # Decides one property on /repo's current working tree; rewrites evidence/<id>.json.
+# quick:    the static rules of the property (loops explored for 0 and 1 iteration).
+# thorough: the same rules with deeper loop exploration, then a self-test of the
+#           check's arming recorded in the evidence: every mutant of the corpus that
+#           names this property is applied to a scratch copy of /repo (outside /repo
+#           and /verif, removed afterwards) and must be reported; every refactoring
+#           control must leave the check silent. The self-test never changes the
+#           verdict about /repo; it is reported under coverage.self_test.
 cd "$(dirname "$0")/.."
 . ./scripts/env.sh
 id="$1"; tier="${2:-${VERIF_TIER:-quick}}"
 if [ ! -x bin/evcheck ] || [ -n "$(find checker -newer bin/evcheck -name '*.go' 2>/dev/null | head -1)" ]; then
   ./scripts/setup.sh || { echo "VIOLATION property=$id replay=/verif/scripts/setup.sh"; exit 1; }
 fi
-exec ./bin/evcheck -tier "$tier" -repo "${EVCHECK_REPO:-/repo}" -verif "$(pwd)" "$id"
+./bin/evcheck -tier "$tier" -repo "${EVCHECK_REPO:-/repo}" -verif "$(pwd)" "$id"
+rc=$?
+if [ "$tier" = "thorough" ] && [ -f "evidence/$id.json" ] && [ -f mutants/patches/index.json ]; then
+  python3 scripts/run_mutants.py -j 8 --self-test "$id" > ".work/selftest-$id.txt" 2>&1
+  python3 - "$id" <<'PY'
+import json, sys, os, re
+pid = sys.argv[1]
+ev = json.load(open("evidence/%s.json" % pid))
+lines = open(".work/selftest-%s.txt" % pid).read().splitlines()
+st = {"mutants_caught": [], "mutants_missed": [], "mutants_skipped": [], "refactors_silent": [], "refactors_flagged": []}
+for l in lines:
+    parts = l.split()
+    if len(parts) < 2: continue
+    tag, name = parts[0], parts[1]
+    key = {"CAUGHT": "mutants_caught", "MISSED": "mutants_missed", "SKIP": "mutants_skipped", "SILENT": "refactors_silent", "FALSE-ALARM": "refactors_flagged"}.get(tag)
+    if key: st[key].append(name)
+st["note"] = "arming self-test on scratch copies of /repo; does not affect the verdict on /repo"
+ev["coverage"]["self_test"] = st
+json.dump(ev, open("evidence/%s.json" % pid, "w"), indent=1)
+print("self-test: %d mutants caught, %d missed, %d skipped; %d refactorings silent, %d flagged" % (len(st["mutants_caught"]), len(st["mutants_missed"]), len(st["mutants_skipped"]), len(st["refactors_silent"]), len(st["refactors_flagged"])))
+PY
+fi
+exit $rc
